@@ -33,6 +33,9 @@ pub struct Monitor {
     pub record: AtomicBool,
     pub log: Mutex<Vec<Ev>>,
     pub read_only: AtomicBool,
+    /// when set, every call (also reads and len) is appended to `call_log` as a compact token
+    pub record_calls: AtomicBool,
+    pub call_log: Mutex<Vec<String>>,
 }
 
 #[derive(Debug, Clone)]
@@ -60,6 +63,9 @@ impl MemBackend {
     /// common entry: call counting, after-close detection, fault injection
     fn enter(&self, what: &str) -> Result<(), std::io::Error> {
         let n = self.mon.calls.fetch_add(1, Ordering::SeqCst) + 1;
+        if self.mon.record_calls.load(Ordering::Relaxed) {
+            self.mon.call_log.lock().unwrap().push(what.to_string());
+        }
         if self.mon.closes.load(Ordering::SeqCst) > 0 {
             self.violation(format!("call-after-close|{what} (call #{n}) after close()"));
         }
@@ -86,7 +92,7 @@ impl StorageBackend for MemBackend {
 
     fn read(&self, offset: u64, out: &mut [u8]) -> Result<(), std::io::Error> {
         self.mon.reads.fetch_add(1, Ordering::Relaxed);
-        self.enter("read")?;
+        self.enter(&format!("read:{offset}:{}", out.len()))?;
         let d = self.data.lock().unwrap();
         let end = offset as usize + out.len();
         if end > d.len() {
@@ -103,7 +109,7 @@ impl StorageBackend for MemBackend {
         if self.mon.read_only.load(Ordering::SeqCst) {
             self.violation(format!("readonly-mutation|set_len({len}) on a read-only database"));
         }
-        self.enter("set_len")?;
+        self.enter(&format!("setlen:{len}"))?;
         let mut d = self.data.lock().unwrap();
         d.resize(len as usize, 0);
         if self.mon.record.load(Ordering::SeqCst) {
@@ -129,7 +135,7 @@ impl StorageBackend for MemBackend {
         if self.mon.read_only.load(Ordering::SeqCst) {
             self.violation(format!("readonly-mutation|write({offset}, {} bytes) on a read-only database", data.len()));
         }
-        self.enter("write")?;
+        self.enter(&format!("write:{offset}:{}", data.len()))?;
         let mut d = self.data.lock().unwrap();
         let end = offset as usize + data.len();
         if end > d.len() {
@@ -146,6 +152,9 @@ impl StorageBackend for MemBackend {
 
     fn close(&self) -> Result<(), std::io::Error> {
         let c = self.mon.closes.fetch_add(1, Ordering::SeqCst) + 1;
+        if self.mon.record_calls.load(Ordering::Relaxed) {
+            self.mon.call_log.lock().unwrap().push("close".to_string());
+        }
         if c > 1 {
             self.violation(format!("double-close|close() called {c} times on one backend"));
         }
